@@ -180,12 +180,12 @@ def opCsym (c : Cur) : String :=
 def isDelta (k : IArr) : Bool :=
   (allIdx k.box).all fun idx => k.get idx == (if idx.all (· == 0) then 1 else 0)
 
-def opConv2 (c : Cur) : String :=
+def opConv2 (inplace : Bool) (c : Cur) : String :=
   let c := c.skip
   let (k, c) := c.iarr 2
   let c := c.skip
   let (x, c) := c.iarr 2
-  let (ob, _) := c.skip.box 2
+  let ob := if inplace then x.box else (c.skip.box 2).1
   let kf := fun a b => k.get [a, b]
   let xf := fun a b => x.get [a, b]
   let coded := join ((allIdx ob).map fun idx =>
@@ -196,12 +196,12 @@ def opConv2 (c : Cur) : String :=
       toString (conv2dAt (r0 k.box 0) (r0 k.box 1) kf (r0 x.box 0) (r0 x.box 1) xf (idx.getD 0 0) (idx.getD 1 0)))
   else coded
 
-def opConv3 (c : Cur) : String :=
+def opConv3 (inplace : Bool) (c : Cur) : String :=
   let c := c.skip
   let (k, c) := c.iarr 3
   let c := c.skip
   let (x, c) := c.iarr 3
-  let (ob, _) := c.skip.box 3
+  let ob := if inplace then x.box else (c.skip.box 3).1
   let kf := fun a b d => k.get [a, b, d]
   let xf := fun a b d => x.get [a, b, d]
   let coded := join ((allIdx ob).map fun idx =>
@@ -213,16 +213,27 @@ def opConv3 (c : Cur) : String :=
         (idx.getD 0 0) (idx.getD 1 0) (idx.getD 2 0)))
   else coded
 
-def opDftf (c : Cur) : String :=
+/-- `variant`: 0 = object built from the spatial kernel (`dftf`), 1 = the same, in-place call (`dftfip`: output range =
+    input range), 2 = object built from the kernel in frequency space (`dftfq <d> c|s`: the real-data transform of the
+    wrapped kernel, through the constructor or `set_kernel_in_frequency_space`) -/
+def opDftf (variant : Nat) (c : Cur) : String :=
   let (d, c) := c.int
   let d := d.toNat
+  let c := if variant == 2 then c.skip else c
   let c := c.skip
   let (k, c) := c.iarr d
   let c := c.skip
   let (x, c) := c.iarr d
-  let (ob, _) := c.skip.box d
+  let ob := if variant == 1 then x.box else (c.skip.box d).1
   let run (coded : Bool) : Option String :=
-    if d == 1 then
+    if variant == 2 then
+      let sizes := sizesOf k.box
+      -- what `fourier_for_real_data` is given: the wrap-around copy of the kernel (`none`: it calls error())
+      if !(realLenOkForward (sizes.getLastD 0) && sizes.dropLast.all isPow2) then none else
+      let kp := toPeriodicND sizes k.box k.get
+      let kp0 := fun (idx : List Int) => kp.getD (flatIdx sizes (idx.map Int.toNat)) 0
+      (dftFilterFreqND true (freqBox (zeroBox sizes)) kp0 x.box x.get ob coded).map fun f => join ((allIdx ob).map fun idx => toString (f idx))
+    else if d == 1 then
       let kr := r0 k.box 0
       let xr := r0 x.box 0
       let o := r0 ob 0
@@ -236,6 +247,55 @@ def opDftf (c : Cur) : String :=
     match run false with
     | some s => "err | " ++ s
     | none => "err"
+
+/-- `padr <d> <irregular> F <box>`: is the index range of a kernel in frequency space accepted, and the padded sizes -/
+def opPadr (c : Cur) : String :=
+  let (d, c) := c.int
+  let (irr, c) := c.int
+  let (fb, _) := c.skip.box d.toNat
+  match setPaddingRange (irr == 0) fb with
+  | none => "no"
+  | some pr =>
+    let sizes := sizesOf pr
+    let last := sizes.getLastD 0
+    let shown := "yes " ++ join (sizes.map toString)
+    if !(realLenOkForward last && sizes.dropLast.all isPow2) then "yes err"
+    else if !realLenOkInverse last then "yes err | " ++ shown
+    else shown
+
+/-- `dftfh <d> H <box> <re im …> X <arr> O <box>`: arbitrary kernel in frequency space -/
+def opDftfh (c : Cur) : String :=
+  let (d, c) := c.int
+  let d := d.toNat
+  let (fb, c) := c.skip.box d
+  let (h, c) := c.cplx (boxSize fb)
+  let (x, c) := c.skip.iarr d
+  let (ob, _) := c.skip.box d
+  match dftFilterSpectrumND true fb h x.box (fun idx => Float.ofInt (x.get idx)) with
+  | none => "err"
+  | some f => join ((allIdx ob).map fun idx => bitsF (f idx))
+
+/-- `rng <class> …`: `get_influencing_indices(O)`, `get_influenced_indices(I)`, `is_trivial()` -/
+def opRng (c : Cur) : String :=
+  let cls := c.peek
+  let c := c.skip
+  let fmtR (r : R) := toString r.lo ++ " " ++ toString r.hi
+  let b2s (b : Bool) := if b then "1" else "0"
+  if cls == "s" then
+    let (k, _) := c.skip.iarr 1
+    "no no " ++ b2s (isTrivialSym (r0 k.box 0).hi (fun j => k.get [j]))
+  else if cls == "d" then
+    "no no " ++ b2s (isTrivialDFT (N c.peek) (parseNum (c.toks.getD (c.pos + 1) "") == 1 && parseNum (c.toks.getD (c.pos + 2) "") == 0))
+  else
+    let d := N cls
+    let (k, c) := c.skip.iarr d
+    let (ir, c) := c.skip.box 1
+    let (orr, _) := c.skip.box 1
+    let kr := r0 k.box 0
+    let triv := if d == 1 then isTrivial1D kr.lo kr.hi (fun j => k.get [j])
+      else if d == 2 then isTrivial2D kr (fun a b => k.get [a, b])
+      else isTrivial3D kr (fun a b e => k.get [a, b, e])
+    fmtR (influencingRange kr (r0 orr 0)) ++ " " ++ fmtR (influencedRange kr (r0 ir 0)) ++ " " ++ b2s triv
 
 /-- one `F type kmin kmax k…` section -/
 def Cur.filt (c : Cur) : Line1 Int × Cur :=
@@ -333,9 +393,16 @@ def answer (line : String) : String :=
   | "conv1ip" => opConv1 true c
   | "csym" => opCsym c
   | "csymip" => opCsym c
-  | "conv2" => opConv2 c
-  | "conv3" => opConv3 c
-  | "dftf" => opDftf c
+  | "conv2" => opConv2 false c
+  | "conv3" => opConv3 false c
+  | "conv2ip" => opConv2 true c
+  | "conv3ip" => opConv3 true c
+  | "dftf" => opDftf 0 c
+  | "dftfip" => opDftf 1 c
+  | "dftfq" => opDftf 2 c
+  | "dftfh" => opDftfh c
+  | "padr" => opPadr c
+  | "rng" => opRng c
   | "sep" => opSep c
   | "scic" => opSep c
   | "sepnull" => opSepNull c
